@@ -59,3 +59,10 @@ package actionlint
 //@ func (*RuleExpression).checkRawYAMLValue
 //@   loop "range v.Elems[1:]":
 //@     invariant [C01] elem != nil
+
+// C05: a workflow triggered both by workflow_call and by workflow_dispatch sees the inputs of both: the type
+// given second is merged into the one installed first; only the initial placeholder (a closed object without
+// members) is replaced
+//@ func (*ExprSemanticsChecker).UpdateInputs
+//@   body_calls [C05] (*ObjectType).Merge iff !(len(o.Props) == 0 && o.Mapped == nil)
+//@   at_call [C05] (*ObjectType).Merge: ty == o && other == iface(ty0)
